@@ -106,9 +106,10 @@ fn rand_cmd(rng: &mut Rng) -> String {
     let main = *rng.pick(&[0u16, 4, 4, 10, 19, 0x123, 0xffff]);
     let sub = *rng.pick(&[0u16, 0, 1, 0x0100, 0x0101, 0x0200, 0x0c00]);
     let file = rng.below(4);
-    let off = match rng.below(4) {
-        0 => 0,
-        1 => rng.below(4),
+    let off = match rng.below(50) {
+        0 => rng.range(1000, 3000), // a data file of several hundred KiB
+        1..=12 => 0,
+        13..=24 => rng.below(4),
         _ => rng.below(40),
     };
     match rng.below(20) {
@@ -249,8 +250,9 @@ pub fn generate(thorough: bool, seed: u64, out: &mut dyn Write) {
         }
     }
     if thorough {
-        // length 4 over a sub-alphabet (one representative per command kind)
-        let sub: Vec<&String> = [1usize, 5, 7, 10, 12, 15, 17, 19, 21, 22, 25, 27].iter().map(|i| &al[*i]).collect();
+        // length 4 over a 16-command sub-alphabet (at least one representative per command kind)
+        let sub: Vec<&String> =
+            [1usize, 4, 5, 7, 8, 10, 12, 14, 15, 17, 19, 20, 21, 22, 25, 27].iter().map(|i| &al[*i]).collect();
         let mut k = 0usize;
         for a in sub.iter() {
             for b in sub.iter() {
@@ -264,7 +266,7 @@ pub fn generate(thorough: bool, seed: u64, out: &mut dyn Write) {
         }
     }
     // random long sequences through all three entry points
-    let n = if thorough { 40_000 } else { 1_500 };
+    let n = if thorough { 100_000 } else { 1_500 };
     for _ in 0..n {
         let mut tree = rand_tree(&mut rng);
         let api = api_of(&mut rng, &mut tree);
@@ -280,7 +282,7 @@ pub fn generate(thorough: bool, seed: u64, out: &mut dyn Write) {
         writeln!(out, "apply api={} tree={} cmds={}", api, tree, cs.join(",")).unwrap();
     }
     // chains of 2..5 patches
-    let n = if thorough { 8_000 } else { 400 };
+    let n = if thorough { 20_000 } else { 400 };
     for _ in 0..n {
         let mut tree = rand_tree(&mut rng);
         let api = api_of(&mut rng, &mut tree);
